@@ -92,6 +92,9 @@ def replay(arg):
         rep = {"dataset": ds, "merge": merge, "lidar": chan, "visibility_convention": conv}
         for key, task, fid in (("det_ego", "detection", "base_link"), ("det_map", "detection", "map"), ("trk_map", "tracking", "map"), ("trk_ego", "tracking", "base_link"),
                                ("det_ego", "sensing", "base_link")):
+            times_ = [s_["time"] for s_ in ds["samples"]]
+            if task == "tracking" and times_ != sorted(times_):
+                continue      # a sample table that is not chronological (several recordings): the look-back of tracking is not specified for it
             n += 1
             et = EvaluationTask.from_value(task)
             try:
@@ -182,7 +185,7 @@ def replay_random(arg):
 
 
 def run(ctx: Ctx):
-    consts = dict(TimeLists="{<<0>>, <<0,1>>, <<0,1,2>>, <<0,1,9>>}",
+    consts = dict(TimeLists="{<<0>>, <<0,1>>, <<0,1,2>>, <<0,1,9>>, <<4,0>>, <<2,5,0>>}",
                   EgoPoses="{[x |-> 0, y |-> 0, q |-> 0],[x |-> 10, y |-> 4, q |-> 1],[x |-> -7, y |-> 3, q |-> 3]}",
                   Cats='{"car","pedestrian.adult","bus","movable_object.barrier","unregistered.thing"}', AnnPoses="{<<1,2>>,<<5,-2>>,<<-3,0>>}", Sizes="{1,2}",
                   PtsSet="{0,7}", VisSet='{"full","most","partial","none"}', MaxInst="2", Sample="3" if ctx.quick else "6")
